@@ -30,6 +30,8 @@ structure PoolRep where
   hstart : List (Nat × Nat) := []       -- HOOK start records per worker
   hstop  : List (Nat × Nat) := []
   hooks  : Bool := false
+  hookStart : Bool := false     -- thread_start is set (HOOK start records are expected)
+  hookStop : Bool := false      -- thread_stop is set
 
 structure Ctx where
   api     : Option (String × String × String) := none   -- (op, pool instance, item)
@@ -362,7 +364,8 @@ partial def stepRec (s : S) (ws : List String) : S × List String :=
     match rest with
     | "API" :: "poolcreate" :: pn :: mx :: hk :: _ =>
       let max := ((mx.splitOn "=").getD 1 "1").toNat?.getD 1
-      ({ s with pools := s.pools ++ [{ name := pn, st := St.init max, owner := t, hooks := hk == "hooks=1" }],
+      ({ s with pools := s.pools ++ [{ name := pn, st := St.init max, owner := t, hooks := hk == "hooks=1" || hk == "hooks=start" || hk == "hooks=stop",
+                                                  hookStart := hk == "hooks=1" || hk == "hooks=start", hookStop := hk == "hooks=1" || hk == "hooks=stop" }],
                 actions := s.actions + 1, cov := bump s.cov "poolcreate" }, [])
     | ["API", "submit", "null", x] | ["API", "submitc", "null", x] =>
       let l := getLocal s t
@@ -702,7 +705,7 @@ def run : IO Unit := do
       for k in List.range p.st.nw do
         let a := (p.hstart.lookup k).getD 0
         let b := (p.hstop.lookup k).getD 0
-        if a != (p.st.w k).starts || b != (p.st.w k).stops then
+        if (p.hookStart && a != (p.st.w k).starts) || (!p.hookStart && a != 0) || (p.hookStop && b != (p.st.w k).stops) || (!p.hookStop && b != 0) then
           out.putStrLn s!"DIVERGE end: pool {p.name} worker {thrName p k}: HOOK start/stop {a}/{b}, model {(p.st.w k).starts}/{(p.st.w k).stops}"
   out.putStrLn s!"SUMMARY actions {s.actions} snapshots {s.snaps} diverged {s.diverged} pools {s.pools.length} conclusive {!s.inconclusive}"
   for (k, n) in s.cov do
